@@ -59,7 +59,11 @@ def check_detach(ctx, rule, floor=4):
                 node = e[1].iter if e[0] in ("iter", "aiter") else e[1] if e[0] in ("stmt", "branch") else None
                 if node is None:
                     continue
-                if e[0] == "aiter" or may_suspend_node(p, node, w):
+                touches_backend = isinstance(node, ast.AST) and any(isinstance(x, ast.Attribute) and x.attr == "path_io" and isinstance(p.parent.get(x), ast.Attribute)
+                                                                    and isinstance(p.parent.get(p.parent.get(x)), ast.Call) and p.parent.get(p.parent.get(x)).func is p.parent.get(x)
+                                                                    and p.parent.get(x).attr not in ("open", "list")
+                                                                    for x in walk_self(node))
+                if e[0] == "aiter" or touches_backend or may_suspend_node(p, node, w):
                     # inside a try whose finally closes the local?
                     if _in_closing_try(p, node if e[0] != "aiter" else e[1], w, local):
                         protected_somewhere = True
